@@ -1311,4 +1311,189 @@ Proof.
     rewrite app_nil_r, csize_app. reflexivity.
 Qed.
 
+
+Lemma step_fn : forall n f params wl body st rst rst' ms,
+  Inv st rst ms -> pre (cstmt (SFn f params wl body) st) fin ->
+  exec_stmt O stale lits n (SFn f params wl body) rst = Ok rst' ->
+  exists k ms', steps O C k ms = Some ms' /\ Inv (cstmt (SFn f params wl body) st) rst' ms'.
+Proof.
+  intros n f params wl body st rst rst' ms HI Hpre H. simpl in H. inversion H; subst rst'; clear H.
+  pose proof Hpre as ([r2 Ek] & _ & [r3 Ef] & _). simpl in Ek, Ef.
+  destruct HI as (Hp & Hrel & Hloc & Hst & Hf & Hlen & Ems).
+  set (W := r_world rst) in *.
+  set (fd := {| fd_params := params; fd_locals := wl; fd_body := body;
+                fd_nglob := length (w_globals W); fd_nforeign := length (w_foreign W) |}).
+  set (W' := {| w_globals := w_globals W; w_fns := w_fns W ++ [(f, fd)]; w_foreign := w_foreign W;
+                w_structs := w_structs W; w_last := w_last W |}).
+  set (ce' := {| c_globals := c_globals (s_env st); c_locals := None;
+                 c_functions := c_functions (s_env st) ++ [(f, false)];
+                 c_chunks := c_chunks (s_env st) ++ [f];
+                 c_ffi := c_ffi (s_env st); c_structs := c_structs (s_env st) |}) in *.
+  assert (Hext : wext W W').
+  { repeat split; simpl; try (exists []; rewrite app_nil_r; reflexivity). exists [(f, fd)]. reflexivity. }
+  assert (Hrel' : cenv_rel O C W' ce' (length (w_globals W)) (length (w_fns W) + 1) (length (w_foreign W))).
+  { destruct Hrel as (H1 & H2 & H3 & H4 & H5 & H6 & H7).
+    unfold cenv_rel. simpl.
+    refine (conj H1 (conj _ (conj _ (conj H4 (conj H5 (conj H6 H7)))))).
+    - rewrite firstn_snoc_all, map_app. rewrite H2, firstn_all. reflexivity.
+    - intro x. rewrite fn_lookup_snoc, firstn_snoc_all, find_last_snoc.
+      specialize (H3 x). rewrite !firstn_all in H3. rewrite ?firstn_all.
+      destruct (String.eqb f x); [discriminate | exact H3]. }
+  eexists 0, _. split; [reflexivity|].
+  refine (conj Hpre (conj _ (conj eq_refl (conj Hst (conj _ (conj _ Ems)))))).
+  - simpl. rewrite app_length. simpl. exact Hrel'.
+  - intros i name fd0 Hi. simpl in Hi.
+    destruct (Nat.lt_ge_cases i (length (w_fns W))) as [Lt|Ge].
+    + rewrite nth_error_app1 in Hi by assumption.
+      eapply fun_ok_grow; [apply Hf; exact Hi | exact Hi | exact Hext].
+    + assert (Ei : i = length (w_fns W)).
+      { assert (i < length (w_fns W ++ [(f, fd)])) by (apply nth_error_Some; congruence).
+        rewrite app_length in H. simpl in H. lia. }
+      subst i. rewrite nth_error_app2, Nat.sub_diag in Hi by lia. simpl in Hi.
+      inversion Hi; subst name fd0.
+      split; [|split; simpl; lia].
+      exists ce', (length (s_consts st)), (s_na st). simpl fd_params. simpl fd_locals. simpl fd_body.
+      refine (conj _ (conj _ (conj _ _))).
+      * simpl. rewrite Ef. rewrite <- Hlen.
+        rewrite <- app_assoc. rewrite nth_error_app2, Nat.sub_diag by lia. reflexivity.
+      * eapply consts_pre_at. exact Ek.
+      * eapply fn_chunk_nomark. exact Ef.
+      * simpl. rewrite <- Nat.add_1_r. exact Hrel'.
+  - simpl. rewrite !app_length. simpl. lia.
+Qed.
+
+
+Lemma match_index_mem : forall x l (b : bool), mem x l = b ->
+  match index_of x l with Some _ => b = true | None => b = false end.
+Proof.
+  intros x l b E. pose proof (index_of_mem x l) as H. destruct (index_of x l); congruence.
+Qed.
+
+Lemma mem_add_key : forall x f l, mem x (add_key f l) = (mem x l || String.eqb x f)%bool.
+Proof.
+  intros. unfold add_key. pose proof (index_of_mem f l) as H.
+  destruct (index_of f l).
+  - destruct (String.eqb x f) eqn:E.
+    + apply String.eqb_eq in E. subst. rewrite H. reflexivity.
+    + rewrite orb_false_r. reflexivity.
+  - rewrite mem_app. simpl. rewrite orb_false_r. reflexivity.
+Qed.
+
+Lemma step_foreign : forall n f st rst rst' ms,
+  Inv st rst ms -> pre (cstmt (SForeign f) st) fin ->
+  exec_stmt O stale lits n (SForeign f) rst = Ok rst' ->
+  exists k ms', steps O C k ms = Some ms' /\ Inv (cstmt (SForeign f) st) rst' ms'.
+Proof.
+  intros n f st rst rst' ms HI Hpre H. simpl in H. inversion H; subst rst'; clear H.
+  pose proof Hpre as (_ & _ & _ & [r4 Effi] & _). simpl in Effi.
+  destruct HI as (Hp & Hrel & Hloc & Hst & Hf & Hlen & Ems).
+  set (W := r_world rst) in *.
+  set (W' := {| w_globals := w_globals W; w_fns := w_fns W; w_foreign := w_foreign W ++ [f];
+                w_structs := w_structs W; w_last := w_last W |}).
+  assert (Hext : wext W W').
+  { repeat split; simpl; try (exists []; rewrite app_nil_r; reflexivity). exists [f]. reflexivity. }
+  eexists 0, _. split; [reflexivity|].
+  refine (conj Hpre (conj _ (conj eq_refl (conj Hst (conj _ (conj Hlen Ems)))))).
+  - destruct Hrel as (H1 & H2 & H3 & H4 & H5 & H6 & H7).
+    unfold cenv_rel. simpl. rewrite app_length. simpl.
+    refine (conj H1 (conj H2 (conj _ (conj _ (conj _ (conj H6 H7)))))).
+    + intro x. rewrite fn_lookup_snoc, firstn_snoc_all, mem_app. simpl. rewrite orb_false_r.
+      specialize (H3 x). rewrite (firstn_all (w_foreign W)) in H3.
+      rewrite (String.eqb_sym x f).
+      destruct (String.eqb f x).
+      * apply orb_true_r.
+      * rewrite orb_false_r. exact H3.
+    + exists r4. exact Effi.
+    + intro x. apply match_index_mem.
+      rewrite mem_add_key, firstn_snoc_all, !mem_app. simpl. rewrite orb_false_r.
+      specialize (H5 x). rewrite (firstn_all (w_foreign W)) in H5. rewrite mem_app in H5.
+      pose proof (index_of_mem x (c_ffi (s_env st))) as M.
+      destruct (index_of x (c_ffi (s_env st))); rewrite M, <- H5; rewrite orb_assoc; reflexivity.
+  - simpl. eapply funs_inv_grow_same; [exact Hf | exact Hext | reflexivity].
+Qed.
+
+Lemma step_struct : forall n sn fs st rst rst' ms,
+  Inv st rst ms -> pre (cstmt (SStruct sn fs) st) fin ->
+  exec_stmt O stale lits n (SStruct sn fs) rst = Ok rst' ->
+  exists k ms', steps O C k ms = Some ms' /\ Inv (cstmt (SStruct sn fs) st) rst' ms'.
+Proof.
+  intros n sn fs st rst rst' ms HI Hpre H. simpl in H. inversion H; subst rst'; clear H.
+  pose proof Hpre as (_ & _ & _ & _ & [r5 Est]). simpl in Est.
+  destruct HI as (Hp & Hrel & Hloc & Hst & Hf & Hlen & Ems).
+  set (W := r_world rst) in *.
+  assert (Hst' : match assoc sn (w_structs W) with
+                 | Some _ => w_structs W
+                 | None => w_structs W ++ [(sn, fs)]
+                 end = add_struct sn fs (c_structs (s_env st))).
+  { unfold add_struct. rewrite Hst.
+    pose proof (index_of_assoc_fst sn (c_structs (s_env st))) as A.
+    destruct (index_of sn (map fst (c_structs (s_env st)))); destruct (assoc sn (c_structs (s_env st)));
+      try contradiction; reflexivity. }
+  assert (Hext : wext W {| w_globals := w_globals W; w_fns := w_fns W; w_foreign := w_foreign W;
+                           w_structs := match assoc sn (w_structs W) with
+                                        | Some _ => w_structs W
+                                        | None => w_structs W ++ [(sn, fs)]
+                                        end; w_last := w_last W |}).
+  { repeat split; simpl; try (exists []; rewrite app_nil_r; reflexivity).
+    destruct (assoc sn (w_structs W)); [exists []; rewrite app_nil_r | exists [(sn, fs)]]; reflexivity. }
+  eexists 0, _. split; [reflexivity|].
+  refine (conj Hpre (conj _ (conj eq_refl (conj Hst' (conj _ (conj Hlen Ems)))))).
+  - destruct Hrel as (H1 & H2 & H3 & H4 & H5 & H6 & H7).
+    unfold cenv_rel. simpl.
+    refine (conj H1 (conj H2 (conj H3 (conj H4 (conj H5 (conj _ _)))))).
+    + exists r5. exact Est.
+    + exists []. rewrite app_nil_r. exact Hst'.
+  - simpl. eapply funs_inv_grow_same; [exact Hf | exact Hext | reflexivity].
+Qed.
+
+Lemma step_proc : forall n name args st rst rst' ms,
+  Inv st rst ms -> pre (cstmt (SProc name args) st) fin ->
+  exec_stmt O stale lits n (SProc name args) rst = Ok rst' ->
+  exists k ms', steps O C k ms = Some ms' /\ Inv (cstmt (SProc name args) st) rst' ms'.
+Proof.
+  intros n name args st rst rst' ms HI Hpre H. simpl in H.
+  apply bind_ok in H. destruct H as (vs & Hvs & H). apply bind_ok in H. destruct H as (lines & Hp & H).
+  inversion H; subst rst'; clear H.
+  pose proof (Inv_RelW _ _ _ HI) as HW.
+  destruct HI as (Hp0 & Hrel & Hloc & Hst & Hf & Hlen & Ems).
+  set (W := r_world rst) in *.
+  set (fargs := cseq (map (fun a => cexpr (s_env st) a) args) (length (s_consts st)) (s_na st)) in *.
+  pose proof (evals_length _ _ _ Hvs) as Hl.
+  pose proof (ok_args O stale lits C W n (expr_correct O stale lits C W Hlits HW n) _ _ _ [] args vs
+                (s_env st) 0 0 [] Hvs Hrel) as Hargs.
+  assert (Hs : stack_ok W (s_env st) [] 0 (rev (map snd (w_globals W)))).
+  { split; [exists []; reflexivity|]. rewrite Hloc. split; reflexivity. }
+  destruct Hrel as (H1 & H2 & H3 & [rest H4] & H5 & H6 & H7).
+  unfold cstmt in Hpre |- *. fold fargs in Hpre |- *.
+  destruct (index_of name (c_ffi (s_env st))) as [idx|] eqn:Ei.
+  - pose proof Hpre as ([r2 Ek] & [r1 Em] & _). simpl in Ek, Em.
+    assert (Hm : nomark (f_code fargs ++ [chk16 (length args) (IFFICallProcedure idx (length args) (f_na fargs))])).
+    { eapply (main_nomark (s_main st) _ r1). rewrite Em. rewrite app_nil_r. reflexivity. }
+    apply nomark_app in Hm. destruct Hm as [Hm1 Hm2]. apply nomark_one in Hm2. destruct Hm2 as [Hm2 _].
+    apply chk16_ok in Hm2. destruct Hm2 as [Hm2 _]. rewrite Hm2 in Em.
+    rewrite app_nil_r in Em.
+    destruct (Hargs (length (s_consts st)) (s_na st) (csize (s_main st)) _ ms Hs
+                (eq_trans (f_equal (@m_last Q) Ems) eq_refl)
+                (main_at _ _ _ _ Em) (consts_pre_at _ _ _ Ek) Hm1) as [k1 S1].
+    fold fargs in S1.
+    assert (Har : at_code C 0 (csize (s_main st) + csize (f_code fargs))
+                    [IFFICallProcedure idx (length args) (f_na fargs)]).
+    { exists "<main>"%string, (s_main st ++ f_code fargs), r1. split.
+      - rewrite main_chunk, Em. rewrite <- !app_assoc. reflexivity.
+      - apply csize_app. }
+    eexists (k1 + 1), _. split.
+    + rewrite Ems in S1 |- *. eapply steps_trans; [exact S1|]. eapply run_one; [exact Har|].
+      simpl. simpl in H4. rewrite H4. rewrite (nth_error_app_l _ _ _ _ (index_of_nth _ _ _ Ei)).
+      rewrite <- Hl. rewrite pop_n_rev. rewrite Hp. reflexivity.
+    + refine (conj Hpre (conj _ (conj Hloc (conj Hst (conj Hf (conj Hlen _)))))).
+      * unfold cenv_rel. exact (conj H1 (conj H2 (conj H3 (conj (ex_intro _ rest H4) (conj H5 (conj H6 H7)))))).
+      * simpl. rewrite Hm2. rewrite ?app_nil_r. rewrite !csize_app. simpl.
+        rewrite ?Nat.add_assoc. reflexivity.
+  - (* compile-time panic marker: excluded by compile_ok *)
+    exfalso. pose proof Hpre as (_ & [r1 Em] & _). simpl in Em.
+    assert (Hm : nomark ((f_code fargs ++ [ICompilePanic]) ++ [])).
+    { eapply (main_nomark (s_main st) _ r1). exact Em. }
+    rewrite app_nil_r in Hm. apply nomark_app in Hm. destruct Hm as [_ Hm]. discriminate.
+Qed.
+
 End Top.
